@@ -494,6 +494,155 @@ def c03_9(ctx):
     return out
 
 
+class _SubstPrime(ast.NodeTransformer):
+    """`self.prime` -> the name PRIME_ (folded to the secp256k1 field prime: any fixed prime > 2 gives the same verdicts)"""
+
+    def visit_Attribute(self, n):
+        self.generic_visit(n)
+        if n.attr == "prime" and isinstance(n.value, ast.Name) and n.value.id in ("self", "other"):
+            return ast.copy_location(ast.Name(id="PRIME_", ctx=ast.Load()), n)
+        return n
+
+
+def c03_10(ctx):
+    """Field arithmetic stays in the field: the value handed to the FieldElement constructor by every operator lies in
+    [0, prime-1] for operands in [0, prime-1] (so the constructor's range check never fires on a legitimate operation),
+    and the constructor accepts exactly [0, prime-1]."""
+    import copy
+    from sa.ranges import Ranges
+
+    P = SECP256K1["P"]
+    names = {"prime": P, "prime-1": P - 1, "2·prime-2": 2 * P - 2}
+    out = []
+    full = ISet.range(0, P - 1)
+    for op in ("__add__", "__sub__", "__mul__", "__pow__", "__truediv__", "__rmul__"):
+        spec = "pecc:FieldElement." + op
+        mod, fn0 = rl.get(ctx, spec)
+        fn = ast.fix_missing_locations(_SubstPrime().visit(copy.deepcopy(fn0)))
+        other = param_names(fn)[1]
+        track = {"self.num": full, "%s.num" % other: full, other: ISet.top()}
+        for r_ in ast.walk(fn):
+            if isinstance(r_, ast.Return) and isinstance(r_.value, ast.Call):
+                for a_ in list(r_.value.args[:1]) + [k.value for k in r_.value.keywords if k.arg == "num"]:
+                    for nm in ast.walk(a_):
+                        if isinstance(nm, ast.Name) and nm.id not in ("self", "PRIME_"):
+                            track.setdefault(nm.id, ISet.top())
+        rg = Ranges(ctx.repo, mod, fn, track, consts={"PRIME_": P})
+        sites = []
+        for n in rg.cfg.returns():
+            v = n.ast.value if n.ast is not None else None
+            if isinstance(v, ast.Call) and (ast.unparse(v.func) in ("self.__class__", "FieldElement", "type(self)")):
+                arg = v.args[0] if v.args else next((k.value for k in v.keywords if k.arg == "num"), None)
+                if arg is not None:
+                    sites.append((n, arg))
+        if not sites:
+            raise AnalysisError("%s: constructor call of the result not found" % spec)
+        for n, arg in sites:
+            if not rg.reachable(n.id):
+                continue
+            val = rg.value_at(n.id, arg)
+            if val is None:
+                out.append(ctx.err(spec, "cannot evaluate the result `%s` abstractly" % ast.unparse(arg), n.ast, mod))
+            elif val.issubset(full):
+                out.append(ctx.ok(spec, "result `%s` ∈ %s ⊆ [0, prime-1]" % (ast.unparse(arg), val.describe(names)), n.ast, mod, key="field-range"))
+            else:
+                w = val.minus(full).witness((P,))
+                out.append(ctx.bad(spec, "the result `%s` can be %s (range %s), outside [0, prime-1]: the constructor rejects it, so e.g. a + (-a) raises instead "
+                                         "of giving 0" % (ast.unparse(arg), "prime" if w == P else w, val.describe(names)), n.ast, mod, key="field-range"))
+    # the constructor accepts exactly the field range
+    spec = "pecc:FieldElement.__init__"
+    mod, fn0 = rl.get(ctx, spec)
+    num, prime = param_names(fn0)[1], param_names(fn0)[2]
+    rg = Ranges(ctx.repo, mod, fn0, {num: ISet.top()}, consts={prime: P})
+    exits = [n for n in rg.cfg.nodes if n.kind in ("return", "exit_normal", "exit") and rg.reachable(n.id)]
+    acc = ISet.empty()
+    for n in rg.cfg.nodes:
+        if n.kind == "stmt" and isinstance(n.ast, ast.Assign) and ast.unparse(n.ast.targets[0]) == "self.num" and rg.reachable(n.id):
+            acc = acc.union(rg.at(n.id, num))
+    if rg.uninterpreted:
+        out.append(ctx.err(spec, "range test not understood: %s" % rg.uninterpreted[0][1], fn0, mod))
+    elif acc == full:
+        out.append(ctx.ok(spec, "a field element is constructed exactly for num ∈ [0, prime-1]", fn0, mod, key="ctor-range"))
+    else:
+        diff = acc.minus(full).union(full.minus(acc))
+        out.append(ctx.bad(spec, "the constructor accepts num ∈ %s instead of [0, prime-1] (e.g. num = %s)" % (acc.describe(names), diff.witness((P, -1, 0))), fn0, mod, key="ctor-range"))
+    return out
+
+
+def c03_11(ctx):
+    """Non-canonical encodings are rejected: a coordinate decoded from bytes reaches the field constructor unreduced, so
+    that a value >= p fails the constructor's range check instead of being folded into the field."""
+    out = []
+    P = SECP256K1["P"]
+    for spec in ("pecc:S256Point.__init__", "pecc:S256Point.parse_sec", "pecc:S256Point.parse_xonly"):
+        mod, fn = rl.get(ctx, spec)
+        cfg = cfg_of(fn)
+        f = Folder(ctx.repo, mod.name)
+        sites = 0
+        for n in cfg.nodes:
+            if n.ast is None:
+                continue
+            for c in ast.walk(n.ast):
+                if isinstance(c, ast.Call) and call_name(c) == "S256Field" and c.args:
+                    arg = expand(fn, n.id, c.args[0])
+                    mods = [b for b in ast.walk(arg) if isinstance(b, ast.BinOp) and isinstance(b.op, ast.Mod)]
+                    from_input = any(a.startswith("param:") or a.startswith("slice:") or a.startswith("index:") for a in origins(fn, n.id, c.args[0]))
+                    if not from_input:
+                        continue
+                    sites += 1
+                    bad = [b for b in mods if f.fold(b.right) == P]
+                    if bad:
+                        out.append(ctx.bad(spec, "the decoded coordinate is reduced (`%s`) before the field element is built: a coordinate in [p, 2^256) is accepted "
+                                                 "and re-serialises to different bytes (non-canonical encoding)" % ast.unparse(bad[0]), c, mod, key="unreduced"))
+                    elif mods:
+                        out.append(ctx.err(spec, "modular arithmetic on a decoded coordinate not understood: `%s`" % ast.unparse(mods[0]), c, mod))
+                    else:
+                        out.append(ctx.ok(spec, "`%s` receives the decoded coordinate unreduced" % ast.unparse(c)[:60], c, mod, key="unreduced"))
+        if not sites and spec.endswith("__init__"):
+            raise AnalysisError("%s: no S256Field construction from the arguments found" % spec)
+    return out
+
+
+def c03_12(ctx):
+    """parse_sec: the tag byte and the length agree — 04 only with 65 bytes, 02/03 only with 33 bytes.  (A 65-byte string
+    `02 ‖ 00·32 ‖ X` is not an encoding of a point; read as a 64-byte big-endian x it equals X and would be accepted.)"""
+    from sa.ranges import Ranges
+
+    spec = "pecc:S256Point.parse_sec"
+    mod, fn = rl.get(ctx, spec)
+    b = param_names(fn)[1]
+    tag, ln = "%s[0]" % b, "len(%s)" % b
+    rg = Ranges(ctx.repo, mod, fn, {tag: ISet.range(0, 255), ln: ISet.of([33, 65])})  # the lengths S256Point.parse dispatches here (C03.9)
+    out = []
+    if rg.uninterpreted:
+        n0, why = rg.uninterpreted[0]
+        return [ctx.err(spec, "test on the tag / length not understood: %s" % why, getattr(n0, "ast", None), mod)]
+    # 04 is not constrained here: a short 04 string dies in int("", 16), which this analysis does not model
+    want = {2: 33, 3: 33}
+    seen = 0
+    done = set()
+    for n in rg.cfg.returns():
+        if not rg.reachable(n.id) or n.ast is None or n.ast.value is None:
+            continue
+        t, l = rg.at(n.id, tag), rg.at(n.id, ln)
+        tags = [k for k in want if not t.intersect(ISet.point(k)).is_empty()]
+        for k in tags:
+            seen += 1
+            if (k, l == ISet.point(want[k])) in done:
+                continue
+            done.add((k, l == ISet.point(want[k])))
+            if l == ISet.point(want[k]):
+                out.append(ctx.ok(spec, "tag %02x is decoded only from %d bytes" % (k, want[k]), n.ast, mod, key="tag-len:%d" % k))
+            else:
+                w = l.minus(ISet.point(want[k])).witness((65, 33, 34, 64))
+                out.append(ctx.bad(spec, "a %s-byte string with tag %02x reaches the decoder (length ∈ %s at the return on line %d; a %02x key has exactly %d bytes): "
+                                         "e.g. %02x ‖ 00·32 ‖ X (65 bytes) parses as the compressed key with x = X" % (w, k, l, n.lineno, k, want[k], k),
+                                   n.ast, mod, key="tag-len:%d" % k))
+    if seen < 2:
+        raise AnalysisError("parse_sec: decode exits for the tags 02/03 not found")
+    return out
+
+
 OBLIGATIONS = [
     ("C03.1", "RANGE accept-set", c03_1),
     ("C03.2", "GUARD", c03_2),
@@ -504,5 +653,8 @@ OBLIGATIONS = [
     ("C03.7", "GUARD", c03_7),
     ("C03.8", "LAYOUT parity map", c03_8),
     ("C03.9", "RANGE accept-set", c03_9),
+    ("C03.10", "RANGE output", c03_10),
+    ("C03.11", "DATAFLOW", c03_11),
+    ("C03.12", "RANGE relation", c03_12),
 ]
-FLOORS = {"C03.3": 2, "C03.5": 3, "C03.6": 3, "C03.7": 4, "C03.8": 3, "C03.9": 2}
+FLOORS = {"C03.10": 7, "C03.11": 3, "C03.3": 2, "C03.5": 3, "C03.6": 3, "C03.7": 4, "C03.8": 3, "C03.9": 2}
